@@ -33,7 +33,7 @@ def run(tier, seed, res):
     res.rule = RULE
     res.assumptions = ["same script preconditions and exclusions as C03 (see evidence/C03.json assumptions)",
                        "on several ranks every wait is preceded by the flush of every tile the taskpool holds (documented: flush before waiting)"]
-    batches, stats = c03.plan(tier, seed, "c17", 0, 1, 40 if quick else 2000, 5 if quick else 10, ranks=(2, 4))
+    batches, stats = c03.plan(tier, seed, "c17", 0, 1, 120 if quick else 2000, 5 if quick else 10, ranks=(2, 4))
     c03.execute(PROP, drv, batches, WHICH, res, lambda s, f, o: s["ranks"] >= 2 and o.facts.get("remote_marks", 0) > 0, max_parallel=4)
     res.coverage.update({"generator_" + k: v for k, v in stats.items()})
     c03.regress(PROP, res, WHICH)
